@@ -1,6 +1,6 @@
 SPECIFICATION Spec
 CONSTANTS Parts = {"tree", "extract", "corrupt"}  MaxNodes = 3  FullNodes = 2  MaxHostile = 1
-          MaxMembers = 3  HardLinkRule = "prefix"  Gen = FALSE
+          MaxMembers = 3  HardLinkRule = "resolved"  Gen = FALSE
 VIEW view
 INVARIANT TypeOK
 INVARIANT Confined
